@@ -135,6 +135,27 @@ class State(_train.Listener):
         ferr = _gem.score_abs_err(gem, P0, Ab)
         if fam == "KernelRIM":
             ferr += 100 * numdiff.EPS * model.reg * float(np.abs(np.trace(model.W_.T @ np.asarray(Xfull) @ model.W_)))
+        # the property speaks about the gradient of the GEMINI of the batch predictions: where the GEMINI itself has a kink
+        # at these predictions (two cluster conditionals that coincide - all rows predicted alike once every feature is
+        # switched off - give |.| / sqrt(.) at 0 for the Wasserstein, TV and MMD distances) there is no such gradient, the
+        # implementation returns a subgradient and the chain rule through it need not be the derivative of the composite
+        # even along a parameter on which the composite happens to be smooth (met in the thorough tier, seed 41).  Probed in
+        # the space of predictions: one-sided directional derivatives along three random logit directions must agree.
+        try:
+            if P0.ndim == 2 and np.all(np.isfinite(P0)) and np.all(P0 > 0):
+                L0 = np.log(P0)
+                g0 = float(np.asarray(gem(P0, Ab)).reshape(-1)[0])
+                for _ in range(3):
+                    V = self.rng.normal(size=P0.shape)
+                    hh = 1e-6
+                    gp = float(np.asarray(gem(gen.softmax(L0 + hh * V), Ab)).reshape(-1)[0])
+                    gm = float(np.asarray(gem(gen.softmax(L0 - hh * V), Ab)).reshape(-1)[0])
+                    dp, dm = (gp - g0) / hh, (g0 - gm) / hh
+                    if abs(dp - dm) > 1e-3 * max(abs(dp), abs(dm)) + 1e3 * ferr / hh + 1e-9:
+                        ctx.count("steps_skipped_gemini_has_a_kink_at_the_batch_predictions")
+                        return
+        except Exception:
+            pass
         ctx.count("steps_monitored")
         ctx.count("steps:" + fam)
         if pairs is not None:
@@ -194,6 +215,11 @@ class State(_train.Listener):
                     import os as _os
                     if _os.environ.get("GCVERIF_DIAG"):
                         f0_ = f(0.0)
+                        try:
+                            np.savez("/tmp/gcverif-diag-c03.npz", Xb=np.asarray(Xb), Ab=np.asarray(Ab) if Ab is not None else np.zeros(0),
+                                     P=np.asarray(model._infer(Xb, retain=False)), eps=float(getattr(gem, "epsilon", 0)))
+                        except Exception as e_:
+                            print("DIAG dump failed", repr(e_))
                         for h0_ in (1e-4, 1e-5, 1e-6):
                             print("DIAG one_step", h0_, numdiff._one_step(f, f0_, h0_ * max(1.0, abs(x0)), ferr), "x0", x0, "ferr", ferr, "scale", scale, "tol", tol, flush=True)
                         for h_ in (1e-2, 1e-3, 1e-4, 1e-5, 1e-6, 1e-7, 1e-8, 1e-9):
